@@ -121,7 +121,19 @@ func (a *Attestations) SetGitHubPullRequestApprovalAttestation(repo gitstore.Sto
 // observed the approval.
 func (a *Attestations) GetGitHubPullRequestApprovalAttestationFor(repo gitstore.Storer, appName, refName, fromRevisionID, targetTreeID string) (*sslibdsse.Envelope, error) {
 	indexPath := GitHubPullRequestApprovalAttestationPath(refName, fromRevisionID, targetTreeID)
-	return a.GetGitHubPullRequestApprovalAttestationForIndexPath(repo, appName, indexPath)
+	env, err := a.GetGitHubPullRequestApprovalAttestationForIndexPath(repo, appName, indexPath)
+	if err != nil {
+		return nil, err
+	}
+
+	// The attestation is looked up by where it is stored: check that what
+	// it states is the change it was stored for, as is done for reference
+	// authorizations
+	if err := githubv01.ValidatePullRequestApproval(env, refName, fromRevisionID, targetTreeID); err != nil {
+		return nil, errors.Join(github.ErrInvalidPullRequestApprovalAttestation, err)
+	}
+
+	return env, nil
 }
 
 // GetGitHubPullRequestApprovalAttestationForReviewID returns the requested
